@@ -328,6 +328,16 @@ def apply_rewrites(src, mask, it, ed, stats, spec_entry):
         ed.insert(L['body_close'], '} } ', prio=10)
         ed.insert(L['body_close'] + 1, ' }', prio=10)
         stats['R3_for_continue'] += 1
+    # R5b: `for &x in E { B }` => `for x in E { let x = *x; B }` (reference pattern on a Copy element)
+    for L in loops:
+        if L['kind'] != 'for': continue
+        hdr = src[L['kw']:L['body_open']]
+        m = re.match(r'for\s+&\s*([A-Za-z_][A-Za-z0-9_]*)\s+in\s+', hdr)
+        if not m: continue
+        amp = L['kw'] + hdr.index('&')
+        ed.replace(amp, amp + 1, '')
+        ed.insert(L['body_open'] + 1, ' let %s = *%s;' % (m.group(1), m.group(1)), prio=-9)
+        stats['R5_refpat'] += 1
     # R4: `LHS op= RHS` => `{ let t = RHS; LHS = LHS op' t; }` for op in + - * / (Verus ICE on the f32 compound
     # form) and & | (=> && ||: Verus has no & | on bool).  Applied to every such statement, whatever the type:
     # for integers the two forms have the same checks in the same order.  `%=` is left alone.
